@@ -7,7 +7,9 @@ import engine
 import streams
 from common import sub_seed
 
-THEOREMS = ["LNN.C04_point", "LNN.C04_classical_and", "LNN.C04_classical_or", "LNN.C04_classical_implies",
+THEOREMS = ["LNN.C04_point", "LNN.C04_point_call", "LNN.C04_point_local",
+            "LNN.C04_classical_and", "LNN.C04_classical_or", "LNN.C04_classical_implies", "LNN.C04_classical_not",
+            "LNN.C04_classical_iff", "LNN.C04_classical_xor",
             "LNN.C04_kleene_and", "LNN.C04_kleene_or", "LNN.C04_kleene_implies", "LNN.C04_kleene_not",
             "LNN.C04_dual_or_up", "LNN.C04_dual_or_down", "LNN.C04_dual_implies_up", "LNN.C04_dual_implies_down"]
 MODULES = ["LnnVerif.Props.C04"]
@@ -81,7 +83,7 @@ def run(rep, tier, seed):
     engine.model_outputs([r for r in recs if "lines" in r])
     ndis = ncmp = 0
     first = None
-    for r in recs:
+    for case, r in zip(cases, recs):
         if "crash" in r:
             rep.bump("harness_crashes")
             rep.extra.setdefault("first_crash", r["crash"] + r.get("trace", "")[-300:])
@@ -98,7 +100,7 @@ def run(rep, tier, seed):
                 rep.violation("schedule", {"problem": "Model.upward() visited an operator before one of its operands", "tree": str(tree)},
                               {"tree": res["tree"], "val": res["val"]})
             # every sub-formula is judged
-            desc, sub = __import__("misc").tree_to_desc(tree, 3 if "2)" in str(tree) and False else max_atom(tree) + 1)
+            desc, sub = __import__("misc").tree_to_desc(tree, case["atoms"])
             for nid, st in sub:
                 exp = KN[kleene(st, res["val"])]
                 got = res["states"].get(nid, res["states"].get(str(nid)))
